@@ -214,6 +214,24 @@ func (fr *Frame) call(st *State, v ssa.Value, cc *ssa.CallCommon, in ssa.Instruc
 		}
 		return fr.staticCall(st, fn, binds, args, in, setResults, freshResults, unmodelled)
 	default:
+		// a local function variable that holds one closure for its whole life (addResponse := func...
+		// captured by a sibling closure, hence a heap cell): the call is a call of that closure
+		if mc := singleStoredClosure(cc.Value); mc != nil {
+			fn := mc.Fn.(*ssa.Function)
+			var binds []Term
+			okb := true
+			for _, b := range mc.Bindings {
+				t, err := fr.value(b)
+				if err != nil {
+					okb = false
+					break
+				}
+				binds = append(binds, t)
+			}
+			if okb {
+				return fr.staticCall(st, fn, binds, args, in, setResults, freshResults, unmodelled)
+			}
+		}
 		ft, err := fr.value(cc.Value)
 		if err == nil {
 			if ci, ok := vc.ctx.closures[ft.S]; ok {
@@ -2180,6 +2198,62 @@ func callbackName(v ssa.Value) (string, bool) {
 		}
 	}
 	return "", false
+}
+
+// singleStoredClosure: v is a load from a local cell (Alloc) into which exactly one value is ever
+// stored, a closure, and no closure that captures the cell stores into it.
+func singleStoredClosure(v ssa.Value) *ssa.MakeClosure {
+	un, ok := v.(*ssa.UnOp)
+	if !ok || un.Op != token.MUL {
+		return nil
+	}
+	al, ok := un.X.(*ssa.Alloc)
+	if !ok || al.Referrers() == nil {
+		return nil
+	}
+	var found *ssa.MakeClosure
+	for _, r := range *al.Referrers() {
+		switch x := r.(type) {
+		case *ssa.Store:
+			if x.Addr != ssa.Value(al) {
+				return nil // the cell's address is stored somewhere
+			}
+			mc, ok := x.Val.(*ssa.MakeClosure)
+			if !ok || found != nil {
+				return nil
+			}
+			found = mc
+		case *ssa.UnOp, *ssa.DebugRef:
+		case *ssa.MakeClosure:
+			// captured: the capturing function must not store into it
+			fn, ok := x.Fn.(*ssa.Function)
+			if !ok {
+				return nil
+			}
+			for i, b := range x.Bindings {
+				if b != ssa.Value(al) || i >= len(fn.FreeVars) {
+					continue
+				}
+				fv := fn.FreeVars[i]
+				if fv.Referrers() == nil {
+					continue
+				}
+				for _, fr := range *fv.Referrers() {
+					switch y := fr.(type) {
+					case *ssa.UnOp, *ssa.DebugRef:
+					case *ssa.Store:
+						_ = y
+						return nil
+					default:
+						return nil
+					}
+				}
+			}
+		default:
+			return nil
+		}
+	}
+	return found
 }
 
 // fieldCallbackName: a function held in a field of a struct reached from a parameter or the
